@@ -1187,6 +1187,178 @@ theorem z_angle_targets (fuel : Nat) (o : Obs ℝ) (out : LinOut ℝ)
     cases hf : o.pfrom.free_xy <;> cases ht : o.pto.free_xy <;> cases hfz : o.pfrom.free_z <;> cases htz : o.pto.free_z <;>
       simp [pushes, targets, hf, ht, hfz, htz, wellTouched, List.filter]
 
+/-! ### a new pass of `project_equations` -/
+
+/-- every adjusted (free or constrained) coordinate group satisfies the reset guard as coded -/
+theorem resetGuard_of_free {K : Type} (p : Pt K) :
+    (p.free_xy = true → Gen.Lin.resetGuard p = true) ∧ (p.free_z = true → Gen.Lin.resetGuard p = true) := by
+  obtain ⟨x, y, z, sxy, sz⟩ := p
+  cases sxy <;> cases sz <;>
+    simp [Gen.Lin.resetGuard, Pt.free_xy, Pt.free_z, Pt.active_xy, Pt.active_z, Status.isFree, Status.isActive]
+
+theorem IdxState.get_eq_zero_of_not_mem (s : IdxState) (u : Unk) (h : ∀ e ∈ s.tab, e.1 ≠ u) : s.get u = 0 := by
+  unfold IdxState.get
+  cases hf : s.tab.find? (fun e => e.1 = u) with
+  | none => rfl
+  | some e =>
+    have hm := List.mem_of_find?_eq_some hf
+    have hk : e.1 = u := by simpa using List.find?_some hf
+    exact absurd hk (h e hm)
+
+/-- after the prologue the counter is 0 and every unknown of a point that satisfies the guard,
+    and every orientation, has index 0 -/
+theorem IdxState.resetPass_clean (guard : Nat → Bool) (s : IdxState) :
+    (s.resetPass guard).maxn = 0 ∧
+    (∀ u : Unk, u.c = .ori → (s.resetPass guard).get u = 0) ∧
+    (∀ u : Unk, guard u.id = true → (s.resetPass guard).get u = 0) := by
+  refine ⟨rfl, ?_, ?_⟩
+  · intro u hu
+    apply IdxState.get_eq_zero_of_not_mem
+    intro e he
+    simp only [IdxState.resetPass, List.mem_filter] at he
+    rintro rfl
+    rw [hu] at he
+    simp at he
+  · intro u hu
+    apply IdxState.get_eq_zero_of_not_mem
+    intro e he
+    simp only [IdxState.resetPass, List.mem_filter] at he
+    rintro rfl
+    cases hc : e.1.c <;> simp [hc, hu] at he
+
+theorem IdxState.get_touch (s : IdxState) (u v : Unk) :
+    (s.touch u).get v = if s.get u = 0 ∧ v = u then s.maxn + 1 else s.get v := by
+  unfold IdxState.touch
+  by_cases h0 : s.get u = 0
+  · simp only [h0, if_true, true_and]
+    by_cases hv : v = u
+    · subst hv; simp [IdxState.get]
+    · have : ¬ u = v := fun h => hv h.symm
+      simp [IdxState.get, hv, this]
+  · simp [h0]
+
+/-- two index states that agree on a set `C` of unknowns (and on the counter) -/
+def AgreeOn (C : Unk → Prop) (s t : IdxState) : Prop := s.maxn = t.maxn ∧ ∀ u, C u → s.get u = t.get u
+
+theorem AgreeOn.touch {C : Unk → Prop} {s t : IdxState} (h : AgreeOn C s t) (u : Unk) (hu : C u) :
+    AgreeOn C (s.touch u) (t.touch u) := by
+  refine ⟨?_, ?_⟩
+  · unfold IdxState.touch
+    rw [h.2 u hu]
+    split <;> simp [h.1]
+  · intro v hv
+    rw [IdxState.get_touch, IdxState.get_touch, h.2 u hu, h.2 v hv, h.1]
+
+def evTarget {K : Type} (name : Role → Coord → Unk) : Ev K → Unk
+  | .touch r c => name r c
+  | .push r c _ => name r c
+
+/-- a pass only looks at the unknowns its events mention: from two states that agree there the
+    rows are the same and the states still agree -/
+theorem runEvs_agree {K : Type} (name : Role → Coord → Unk) (C : Unk → Prop) (evs : List (Ev K)) :
+    ∀ s t : IdxState, AgreeOn C s t → (∀ e ∈ evs, C (evTarget name e)) →
+      (runEvs name evs s).2 = (runEvs name evs t).2 ∧ AgreeOn C (runEvs name evs s).1 (runEvs name evs t).1 := by
+  induction evs with
+  | nil => intro s t h _; exact ⟨rfl, h⟩
+  | cons e l ih =>
+    intro s t h hC
+    have hl : ∀ e ∈ l, C (evTarget name e) := fun e he => hC e (List.mem_cons_of_mem _ he)
+    cases e with
+    | touch r c =>
+      have hc : C (name r c) := hC (Ev.touch r c) (List.mem_cons_self ..)
+      exact ih _ _ (h.touch _ hc) hl
+    | push r c v =>
+      have hc : C (name r c) := hC (Ev.push r c v) (List.mem_cons_self ..)
+      obtain ⟨h1, h2⟩ := ih s t h hl
+      refine ⟨?_, h2⟩
+      show (s.get (name r c), v) :: (runEvs name l s).2 = (t.get (name r c), v) :: (runEvs name l t).2
+      rw [h.2 _ hc, h1]
+
+/-- history independence of a pass: after the prologue of `project_equations`, whatever the
+    previous passes left behind, observations that only mention unknowns of points satisfying the
+    guard (and orientations) get exactly the rows and the counter of a pass on a brand-new state -/
+theorem pass_fresh {K : Type} (name : Role → Coord → Unk) (guard : Nat → Bool) (s : IdxState) (evs : List (Ev K))
+    (hC : ∀ e ∈ evs, (evTarget name e).c = .ori ∨ guard (evTarget name e).id = true) :
+    (runEvs name evs (s.resetPass guard)).2 = (runEvs name evs IdxState.init).2 ∧
+    (runEvs name evs (s.resetPass guard)).1.maxn = (runEvs name evs IdxState.init).1.maxn := by
+  have hag : AgreeOn (fun u => u.c = .ori ∨ guard u.id = true) (s.resetPass guard) IdxState.init := by
+    obtain ⟨h0, h1, h2⟩ := IdxState.resetPass_clean guard s
+    refine ⟨h0, ?_⟩
+    intro u hu
+    have : IdxState.init.get u = 0 := rfl
+    rw [this]
+    rcases hu with hu | hu
+    · exact h1 u hu
+    · exact h2 u hu
+  obtain ⟨h1, h2⟩ := runEvs_agree name _ evs _ _ hag hC
+  exact ⟨h1, h2.1⟩
+
+/-! ### aliased roles -/
+
+theorem dX_bumpTF (o : Obs ℝ) (c t) : dX (bumpSetU o [.pto, .pfs] c t) = dX o + velX .pto c * t := by
+  cases c <;> simp [dX, bumpSetU, bumpSet, bump, bumpPt, velX, unitOf, MM] <;> ring
+theorem dY_bumpTF (o : Obs ℝ) (c t) : dY (bumpSetU o [.pto, .pfs] c t) = dY o + velY .pto c * t := by
+  cases c <;> simp [dY, bumpSetU, bumpSet, bump, bumpPt, velY, unitOf, MM] <;> ring
+theorem dX2_bumpTF (o : Obs ℝ) (c t) : dX2 (bumpSetU o [.pto, .pfs] c t) = dX2 o + velX2 .pfs c * t := by
+  cases c <;> simp [dX2, bumpSetU, bumpSet, bump, bumpPt, velX2, unitOf, MM] <;> ring
+theorem dY2_bumpTF (o : Obs ℝ) (c t) : dY2 (bumpSetU o [.pto, .pfs] c t) = dY2 o + velY2 .pfs c * t := by
+  cases c <;> simp [dY2, bumpSetU, bumpSet, bump, bumpPt, velY2, unitOf, MM] <;> ring
+
+theorem angle_joint_partial (o : Obs ℝ) (c : Coord) (h : hdist o ≠ 0) (h' : hdist2 o ≠ 0) :
+    IsPartialAngleSet o [.pto, .pfs] c
+      (R2CC * ((dX2 o * velY2 .pfs c - dY2 o * velX2 .pfs c) / (hdist2 o * hdist2 o) -
+               (dX o * velY .pto c - dY o * velX .pto c) / (hdist o * hdist o))) := by
+  obtain ⟨θ₁, a0, ap, ad⟩ := exists_polar_lift (dX o) (dY o) (velX .pto c) (velY .pto c) (hdist_sq_ne h)
+  obtain ⟨θ₂, b0, bp, bd⟩ := exists_polar_lift (dX2 o) (dY2 o) (velX2 .pfs c) (velY2 .pfs c) (hdist2_sq_ne h')
+  refine ⟨θ₁, θ₂, a0, b0, ?_, ?_, ?_⟩
+  · intro t; simpa only [dX_bumpTF, dY_bumpTF] using ap t
+  · intro t; simpa only [dX2_bumpTF, dY2_bumpTF] using bp t
+  · rw [hdist_mul_self, hdist2_mul_self]
+    exact (bd.sub ad).const_mul R2CC
+
+/-- angle whose two targets are adjusted: the sum of the coefficients pushed for the backsight and
+    for the foresight is the derivative of the angle when BOTH targets move together -/
+theorem angle_joint (fuel : Nat) (o : Obs ℝ) (out : LinOut ℝ) (h : ¬ hdist o < CUT) (h' : ¬ hdist2 o < CUT)
+    (ht : o.pto.free_xy = true) (hs : o.pfs.free_xy = true)
+    (hok : Gen.Lin.angle fuel o = .ok out) (c : Coord) :
+    IsPartialAngleSet o [.pto, .pfs] c (coeffSum out.pushes [.pto, .pfs] c) := by
+  have he := (angle_ok fuel o out h h' hok).2
+  have hd := (hdist_pos_of_not_cut h).ne'
+  have hd2 := (hdist2_pos_of_not_cut h').ne'
+  have hpi : π ≠ 0 := Real.pi_ne_zero
+  obtain ⟨θ₁, θ₂, a0, b0, ap, bp, hder⟩ := angle_joint_partial o c hd hd2
+  refine ⟨θ₁, θ₂, a0, b0, ap, bp, hder.congr_deriv ?_⟩
+  unfold LinOut.pushes; rw [he]; unfold angleEvs
+  cases o.pfrom.free_xy <;> cases c <;>
+    simp [pushes, coeffSum, ht, hs, velX, velY, velX2, velY2, KF, R2CC] <;> field_simp <;> ring
+
+/-- angle with identical targets (bs = fs, allowed since 1.3.31): the two sets of coefficients
+    cancel in the one column they share — the derivative of the constant angle -/
+theorem angle_bs_eq_fs_sum_zero (fuel : Nat) (o : Obs ℝ) (out : LinOut ℝ) (hal : o.pto = o.pfs)
+    (h : ¬ hdist o < CUT) (hok : Gen.Lin.angle fuel o = .ok out) (c : Coord) :
+    coeffSum out.pushes [.pto, .pfs] c = 0 := by
+  have h' : ¬ hdist2 o < CUT := by
+    have : hdist2 o = hdist o := by simp [hdist, hdist2, dX, dY, dX2, dY2, hal]
+    rw [this]; exact h
+  have he := (angle_ok fuel o out h h' hok).2
+  have e1 : dX2 o = dX o := by simp [dX, dX2, hal]
+  have e2 : dY2 o = dY o := by simp [dY, dY2, hal]
+  have e3 : hdist2 o = hdist o := by simp [hdist, hdist2, e1, e2]
+  unfold LinOut.pushes; rw [he]; unfold angleEvs
+  rw [← hal, e1, e2, e3]
+  cases o.pfrom.free_xy <;> cases o.pto.free_xy <;> cases c <;> simp [pushes, coeffSum]
+
+theorem dZ_bumpFT (o : Obs ℝ) (c t) : dZ (bumpSetU o [.pfrom, .pto] c t) = dZ o := by
+  cases c <;> simp [dZ, bumpSetU, bumpSet, bump, bumpPt, unitOf, MM]
+theorem dX_bumpFT (o : Obs ℝ) (c t) : dX (bumpSetU o [.pfrom, .pto] c t) = dX o := by
+  cases c <;> simp [dX, bumpSetU, bumpSet, bump, bumpPt, unitOf, MM]
+theorem dY_bumpFT (o : Obs ℝ) (c t) : dY (bumpSetU o [.pfrom, .pto] c t) = dY o := by
+  cases c <;> simp [dY, bumpSetU, bumpSet, bump, bumpPt, unitOf, MM]
+
+theorem const_partialSet (F : Obs ℝ → ℝ) (o : Obs ℝ) (S : List Role) (c : Coord)
+    (hF : ∀ t, F (bumpSetU o S c t) = F o) : IsPartialSet MM F o S c 0 := by
+  unfold IsPartialSet; simp only [hF]; exact hasDerivAt_const _ _
+
 /-! ### concrete witnesses (non-vacuity; former defect inputs F12 / F16, now regression inputs) -/
 
 theorem isPartial_unique {u : ℝ} {F : Obs ℝ → ℝ} {o : Obs ℝ} {r : Role} {c : Coord} {v w : ℝ}
